@@ -197,7 +197,8 @@ def tcfg(lenient=True):
 def kf_lines(ctx, name):
     """<<"KF", key, id>> lines printed by TraceSeqNum in every run of validate_segments(name=...)."""
     out = {}
-    for d in glob.glob(os.path.join(ctx.work, 'tlc-%s-v*' % name)):
+    # (vlib.validate_segments may cut a batch into parallel chunks: run directories tlc-<name>-v* or tlc-<name>-j<K>-v*)
+    for d in glob.glob(os.path.join(ctx.work, 'tlc-%s-v*' % name)) + glob.glob(os.path.join(ctx.work, 'tlc-%s-j*-v*' % name)):
         p = os.path.join(d, 'tlc.out')
         if os.path.exists(p):
             for m in re.finditer(r'<<"KF", "(\w+)", (\d+)>>', open(p).read()):
